@@ -208,10 +208,8 @@ impl Response {
             let content_length: usize = content_length
                 .parse()
                 .map_err(|_| ResponseError::Response)?;
-            let mut content_buf: Vec<u8> = vec![0u8; content_length];
-            reader
-                .read_exact(&mut content_buf)
-                .map_err(|_| ResponseError::Stream)?;
+            let content_buf =
+                read_exact_bounded(&mut reader, content_length).ok_or(ResponseError::Stream)?;
 
             Ok(Self {
                 version,
@@ -275,10 +273,25 @@ where
         stream.read_exact(&mut [0u8, 0]).ok()?;
         None
     } else {
-        let mut content_buf: Vec<u8> = vec![0u8; length];
-        stream.read_exact(&mut content_buf).ok()?;
+        let content_buf = read_exact_bounded(stream, length)?;
         stream.read_exact(&mut [0u8, 0]).ok()?;
         Some(content_buf)
+    }
+}
+
+/// Reads exactly `length` bytes, growing the buffer as data arrives so that memory use is bounded by what the
+///   peer actually sends, not by the length it claims.
+fn read_exact_bounded<T>(stream: &mut T, length: usize) -> Option<Vec<u8>>
+where
+    T: Read,
+{
+    let mut buf: Vec<u8> = Vec::new();
+    stream.take(length as u64).read_to_end(&mut buf).ok()?;
+
+    if buf.len() == length {
+        Some(buf)
+    } else {
+        None
     }
 }
 
